@@ -30,11 +30,9 @@ partial def loop (inp : IO.FS.Stream) (out : IO.FS.Stream) (zone : IO.Ref Starca
   if line.isEmpty then return ()
   let l := String.ofList (line.toList.reverse.dropWhile (fun c => c == '\n' || c == '\r')).reverse
   let toks := l.splitOn " "
-  -- a first token "@tz=<zone>" names the local time zone the real code is to run under; the model
-  -- has no process environment, so its answer is the same for every such prefix
-  let toks := match toks with
-    | t :: rest => if t.startsWith "@" then rest else toks
-    | [] => toks
+  -- leading tokens "@tz=<zone>", "@procs=<n>" describe the process the real code is to run in (local
+  -- time zone, GOMAXPROCS); the model has no process environment: same answer whatever they say
+  let toks := toks.dropWhile (fun t => t.startsWith "@")
   let resp ← match toks with
     | ["zone", "set", _name, o0, tr] =>
       match o0.toInt?, parseTrans tr with
